@@ -99,3 +99,26 @@ Definition ex_ff_cfg : cfg :=
     (fun _ => []) (fun _ => 0%Q) (fun _ => [])
     (fun _ => 0%Q) (fun _ => []) (fun _ => []) (fun _ => []).
 Definition ex_ff_opts : opts := mkOpts 0%Z [] false true true 50 [].
+
+(* the small project on which deleting the absence steps does NOT give the
+   absence-free run under the FIFO rule (C10, recorded finding; the same case
+   is corpus/C10/fifo_small.json): task 1 (1/2 unit) precedes task 0 (3 units),
+   task 2 (2 units) is independent; worker 0 is skilled for all of them, worker
+   1 only (slowly) for task 2 *)
+Definition ex_fifo_cfg : cfg :=
+  mkCfg 3 2 0 0 1 0
+    (fun t => match t with 2 => 0 | _ => 2 end)
+    (fun t => match t with 0 => 3%Q | 1 => (1#2)%Q | _ => 2%Q end)
+    (fun _ => 0%Q) (fun _ => 1%Q) (fun _ => false) (fun _ => false) (fun _ => None)
+    (fun t => match t with 0 => [(1, FS)] | _ => [] end) (fun t => match t with 1 => [(0, FS)] | _ => [] end)
+    (fun _ => [0]) (fun _ => []) (fun _ => None) (fun _ => None)
+    (fun t => match t with 0 => 0%Z | 1 => 2%Z | _ => (-1)%Z end) (fun t => match t with 2 => 2%Z | _ => 0%Z end)
+    (fun t => match t with 2 => 1%Z | _ => 0%Z end) (fun t => match t with 0 => 9%Z | 1 => 0%Z | _ => (-1)%Z end)
+    (fun _ => 0) (fun w => match w with 0 => [(0, 1%Q); (2, (3#2)%Q)] | _ => [(0, (1#4)%Q)] end) (fun _ => [])
+    (fun w => match w with 0 => (5#2)%Q | _ => 1%Q end) (fun _ => false)
+    (fun _ => []) (fun _ => None)
+    (fun g => match g with 0 => [0; 1] | _ => [] end)
+    (fun _ => 0) (fun _ => 0) (fun _ => []) (fun _ => 0%Q) (fun _ => false) (fun _ => [])
+    (fun _ => []) (fun _ => 0%Q) (fun _ => [])
+    (fun _ => 0%Q) (fun _ => []) (fun _ => []) (fun _ => []).
+Definition ex_fifo_opts : opts := mkOpts 4%Z [0; 1] false true true 60 [].
